@@ -75,6 +75,15 @@ def workspaces(ck):
         if rng.random() < 0.5:
             main += "def s1 : Leaf; %s def s2 : Leaf;%s" % (rng.choice(["\U0001F600", "\u00e9", "\U000F0001\u00df"]), e1)
         files["main.td"] = main
+        # texts without a final line terminator whose last line has non-ASCII text in front of declarations, references and a fault
+        for ni, name in enumerate(sorted(files)):
+            if rng.random() < 0.5:
+                w8 = rng.choice(["caf\u00e9", "\U0001F980", "\u65e5\u672c", "\u00fc\U0001F600\u00df"])
+                tag = "t%d" % ni
+                tail = '/* %s */ def %s_a : Mid { string s = "%s"; } def %s_b : Base<5>, Missing%s;' % (w8, tag, w8, tag, tag)
+                files[name] = files[name] + tail
+            elif rng.random() < 0.3:
+                files[name] = files[name].rstrip("\r\n")
         out.append(files)
     return out
 
